@@ -121,6 +121,10 @@ def run(ctx):
             ev = rng.choice(['MAR', 'HM', '50K', '100K', '20KW', '10K', '5M', '10M', '30K', '24HR'])
             t = '%d:%02d:%02d.%s' % (rng.randint(1, 11), rng.randint(0, 59), rng.randint(0, 59), ''.join(rng.choice('0123456789') for _ in range(rng.choice([1, 2, 2, 3]))))
             yield ev, t, 'all', rng.choice([1, 2, 2, 3, None])
+        # field marks of hundreds of digits (float() gives inf): a two-decimal number or a refusal, never 'inf'
+        for ev in ['SHJ', 'SLJ', 'BT', 'OT', 'HJ', 'JT800']:
+            for t in ('9' * 320, '9' * 309, '1' + '0' * 308, '9' * 400 + '.5'):
+                yield ev, t, 'all', None
         # multi-event totals around the ceiling, for every multi-event code (spec-side list) in three spellings
         for ev in ['BI', 'TRI', 'QUAD', 'PEN', 'HEX', 'HEP', 'OCT', 'ENN', 'DEC', 'HEN', 'DOD', 'ICO', 'PENI', 'PENWT']:
             for sp in (ev, ev.lower(), ev.title()):
@@ -141,7 +145,7 @@ def run(ctx):
         if st.startswith('leak'):
             fail('the caller\'s error class or a string', st, 'another exception escapes'); continue
         # model line (only the fully modelled sub-domain is compared: see Model/Perf.lean)
-        if prec is None and i % 3 == 0:
+        if prec is None and i % 3 == 0 and len(t) < 250:      # hundreds of digits: float overflow is not modelled (exact decimals there)
             lines.append('pf\tcheck\t%s\t%s\t%s' % (CC.cps(ev), CC.cps(t), CC.cps(g_)))
             expect.append(('ok ' + CC.cps(r)).strip() if st == 'ok' else 'refused')
         if i % 11 == 0:
